@@ -322,3 +322,138 @@ def run(fx, rep, tier):
         o["key"] = o["rule"] + ":" + o["key"]
         o["rule"] = "C19-R6"
         rep.obls.append(o)
+    r7_unit_exponent(facts, rep)
+
+
+# ---- the exponent of a displayed unit ----------------------------------------------------------------------------------
+SUPER = "⁰¹²³⁴⁵⁶⁷⁸⁹"
+
+
+def _unit_display_body(facts):
+    hits = [b for b in facts.all if b.promoted < 0 and b.path.startswith("<unit::Display") and b.path.endswith(" as std::fmt::Display>::fmt")]
+    return hits[0] if len(hits) == 1 else None
+
+
+def _udisp_run(facts, body, power, stops=(), start=None):
+    from ..absint.term import EffectDomain
+    def oracle(dom, it, name, args, vals, store):
+        if name == "prefix::Prefix::find":
+            return [(Agg("tuple", None, None, None, (Sym("prefix"), Sym("extra"))), store)]
+        if name == "unit::Unit::format_suffix":
+            return [(ok(UNIT), dom.with_log(store, ("suffix",)))]
+        if name.endswith("::write_fmt"):
+            return [(ok(UNIT), dom.with_log(store, ("write",)))]
+        if name == "<char as std::fmt::Display>::fmt":
+            return [(ok(UNIT), dom.with_log(store, ("char", vals[0])))]
+        if name == "unit::Unit::prefix_bias":
+            return [(Sym("bias"), store)]
+        b = facts.fn(name)
+        if b is not None and b.arg_count == 1 and b.local_ty(1) == "u32" and b.local_ty(0) == "char" and not isinstance(vals[0], Const):
+            # the digit -> superscript function on a symbolic argument: recorded with the path condition, result opaque
+            return [(T("superscript", vals[0]), dom.with_log(store, ("digit", vals[0], tuple(dom.pc(store)))))]
+        return None
+    dom = EffectDomain({}, oracle=oracle)
+    dom.uninterp = lambda n: facts.fn(n) is None
+    it = core.Interp(facts, dom, budget=60000)
+    if start is not None:
+        return dom, it, it.run(body, [], {}, start=start, stop=set(stops))
+    st = {}
+    st, dref = it.fresh_slot(st, Agg("adt", "compound::State", 0, "State", (power, Sym("pfx"))))
+    st, uref = it.fresh_slot(st, Sym("unit"))
+    adt = facts.adt("unit::Display")
+    names = [f["name"] for f in adt["variants"][0]["fields"]]
+    vals = {"unit": uref, "data": dref, "pluralize": Sym("pluralize"), "n": Const(1)}
+    st, sref = it.fresh_slot(st, Agg("adt", "unit::Display", 0, "Display", tuple(vals.get(n, Sym("d." + n)) for n in names)))
+    return dom, it, it.run(body, [sref, Sym("f")], st, stop=set(stops))
+
+
+def _le9(arg, pc):
+    """Is arg <= 9 entailed: a remainder modulo ten, or a comparison on the path."""
+    if isinstance(arg, T) and arg.op == "irem" and arg.args[1] in (Const(10),):
+        return True
+    for p, b in pc:
+        if not isinstance(p, T) or len(p.args) != 2:
+            continue
+        x, y = p.args
+        if x == arg and isinstance(y, Const) and isinstance(y.v, int):
+            if (p.op == "Lt" and b and y.v <= 10) or (p.op == "Le" and b and y.v <= 9) or (p.op == "Ge" and not b and y.v <= 10) or (p.op == "Gt" and not b and y.v <= 9):
+                return True
+        if y == arg and isinstance(x, Const) and isinstance(x.v, int):
+            if (p.op == "Gt" and b and x.v <= 10) or (p.op == "Ge" and b and x.v <= 9) or (p.op == "Le" and not b and x.v <= 10) or (p.op == "Lt" and not b and x.v <= 9):
+                return True
+    return False
+
+
+def r7_unit_exponent(facts, rep, rule="C19-R7"):
+    rep.rule(rule, "the exponent of a displayed unit is its decimal digits in superscript: (a) the digit function maps 0..9 to "
+                   "⁰..⁹ (all ten arguments); (b) on every path of unit::Display::fmt, from the entry and from each loop head "
+                   "with the loop state arbitrary, the digit function is only applied to a value proved <= 9 (a comparison on "
+                   "the path or a remainder modulo ten); (c) for exponents with 1, 2, 3 and 10 digits the characters written "
+                   "are the superscript digits in order, nothing for 1")
+    from .. import loops as L
+    from ..absint.stdmodels import Seq
+    body = _unit_display_body(facts)
+    if body is None or facts.adt("unit::Display") is None:
+        rep.ob(rule, "anchor:unit::Display::fmt", False, "the Display impl of unit::Display was not found")
+        return
+    # (a) the digit table
+    digit_fns = sorted({n for b, t, sp, n in body.calls() if facts.fn(n) is not None and facts.fn(n).arg_count == 1
+                        and facts.fn(n).local_ty(1) == "u32" and facts.fn(n).local_ty(0) == "char"})
+    for fn in digit_fns:
+        fb = facts.fn(fn)
+        for d in range(10):
+            dom = TermDomain(uninterp=lambda n: True)
+            it = core.Interp(facts, dom, budget=2000)
+            try:
+                outs = it.run(fb, [Const(d)], {})
+            except core.Undecided as e:
+                rep.ob(rule, "digit-table:%s:%d" % (fn, d), False, "undecided: %s" % e, fb.site())
+                continue
+            got = [o.value.v for o in outs if o.kind == "ret" and isinstance(o.value, Const)]
+            rep.ob(rule, "digit-table:%s:%d" % (fn, d), got == [ord(SUPER[d])],
+                   "%s(%d) = %s (expected %r)" % (fn, d, [chr(g) if isinstance(g, int) else g for g in got], SUPER[d]), fb.site())
+    # (b) call-site domain
+    heads = L.loop_heads(body)
+    segs = []
+    try:
+        dom, it, outs = _udisp_run(facts, body, Sym("power"), stops=heads)
+        segs.append(("entry", dom, outs))
+        for o in list(outs):
+            if o.kind != "stop":
+                continue
+            st = dict(o.store)
+            for l in L.variant_locals(body, o.value):
+                ty = body.local_ty(l)
+                st = it.write_ref(st, core.Ref(1, l), Sym("L%d" % l) if ty in ("u32", "i32", "usize") else TOP)
+            dom2, it2, outs2 = _udisp_run(facts, body, None, stops=heads, start=(o.value, st))
+            segs.append(("loop@%d" % o.value, dom2, outs2))
+    except core.Undecided as e:
+        rep.ob(rule, "call-sites", False, "undecided: %s" % e, body.site())
+        segs = []
+    n_sites = 0
+    bad = []
+    for tag, d_, outs_ in segs:
+        for o in outs_:
+            for e in d_.log(o.store):
+                if e[0] == "digit":
+                    n_sites += 1
+                    if not _le9(e[1], list(e[2]) + list(d_.pc(o.store))):
+                        bad.append("%s: applied to %r where only %s is known" % (tag, e[1], "; ".join("%r=%s" % x for x in e[2]) or "nothing"))
+    if digit_fns:
+        rep.ob(rule, "digit-argument-below-ten", not bad and n_sites >= 2,
+               bad[0] if bad else "%d application(s) of the digit function on the explored paths, each to a value proved <= 9" % n_sites, body.site())
+    # (c) composition on boundary values
+    for p in (1, 2, 9, 10, 11, 19, 20, 99, 100, 101, 999, 1000, 4294967295):
+        try:
+            dom, it, outs = _udisp_run(facts, body, Const(p))
+        except core.Undecided as e:
+            rep.ob(rule, "exponent:%d" % p, False, "undecided: %s" % e, body.site())
+            continue
+        want = [] if p == 1 else [ord(SUPER[int(c)]) for c in str(p)]
+        gots = set()
+        for o in outs:
+            if o.kind != "ret" or not (isinstance(o.value, Agg) and o.value.vi == 0):
+                continue
+            gots.add(tuple(e[1].v if isinstance(e[1], Const) else repr(e[1]) for e in dom.log(o.store) if e[0] == "char"))
+        rep.ob(rule, "exponent:%d" % p, gots == {tuple(want)},
+               "power %d is written as %s (expected %r)" % (p, ["".join(chr(c) if isinstance(c, int) else "?" for c in g) for g in gots], "".join(chr(c) for c in want)), body.site())
